@@ -23,8 +23,8 @@ ASSUMPTIONS = ["each is_valid reads at most one field of self (checked by the tr
                "blake2b / CPython's int hash reduction are external: hash distinctness over the 5,878,656 names is decided only by the "
                "thorough tier's exhaustive test, not by a theorem",
                "muutils serialize/load_item_recursive and ZANJ are external (exercised through the real calls on samples)",
-               "string-level injectivity of names is proved only at token level (C15_name_injective_partial); "
-               "the thorough tier checks all 5,878,656 real names for distinctness"]
+               "string-level injectivity of names on the whole space is a theorem about the MODEL's renderer (C15_name_injective, "
+               "structural prefix-code proof); the thorough tier additionally checks all 5,878,656 real names for distinctness"]
 TRUSTED = ["harness/translate_tokenizer_types.py (ast + import readings must agree; is_valid tables by calling the real methods)",
            "the plain-Python oracles in harness/c15.py"]
 
